@@ -39,9 +39,22 @@ func registerSpecs() {
 	}
 	specs["C26"] = &spec{
 		Harness: "wire", Level: "fault_enumeration", QuickRuns: 20000, ThoroughRuns: 600000, Chunk: 1500, EnumQuick: true, EnumThorough: true,
-		Rule: "enumerated part: every single-bit flip of the first packet of a two-packet stream for each of the 51 cipher x MAC pairs (positions beyond the packet are trivial cases); sampled part: 1-5 packets, 1-3 faults from {bit flip, byte overwrite, truncation at any offset, packet drop / duplicate / swap, inserted bytes, inflated length field with the link kept open, fully random stream} for every pair and for the none cipher; non-trivial = the delivered stream differs from the written one; distinct = distinct hash of (schedule, events)",
+		Rule: "enumerated part: every single-bit flip of the first packet of a two-packet stream for each of the 51 cipher x MAC pairs (positions beyond the packet are trivial cases); sampled part: 1-5 packets, 1-3 faults from {bit flip, byte overwrite, truncation at any offset, packet drop / duplicate / swap, inserted bytes, inflated length field and boundary values of the declared length (maxPacket+1 .. 2^32-1) with the link kept open, fully random stream} for every pair and for the none cipher; non-trivial = the delivered stream differs from the written one; distinct = distinct hash of (schedule, events)",
 		Real: wireReal,
 		Stub: append([]string{"attacker rewriting the ciphertext between writer and reader", "key agreement supplied by the harness"}, sshStub[:2]...),
 		Assumptions: []string{"for authenticated modes the first packet position whose bytes differ bounds how many payloads may be returned", "after the first error nothing further is asserted (the connection is torn down)", "timing of the CBC camouflage read is not asserted, only that no data is returned"},
+	}
+	kexStub := append([]string{"on-path attacker rewriting plaintext handshake packets (insert/delete/swap/duplicate/modify semantic fields)", "plaintext scripted client for group-exchange requests", "independent wire monitor recomputing exchange hashes and verifying every MAC under its own sequence counters"}, sshStub...)
+	specs["C29"] = &spec{
+		Harness: "kex", Level: "exploration", QuickRuns: 5000, ThoroughRuns: 150000, Chunk: 150, EnumQuick: true, EnumThorough: true,
+		Rule: "one case = (kind, key exchange method out of all 11, host key type Ed25519/ECDSA P-256/384/521/RSA with ssh-rsa/rsa-sha2-256/-512, cipher/MAC, schedule): clean handshakes with 0-2 re-keys and echo traffic; value-changing tampering of one semantic field before NEWKEYS (version line, any KEXINIT field, public value, host key, signature, GEX p/g/request); substitution of an invalid peer public value from the boundary sets (DH 0,1,p-1,p,p+1,2^k; EC infinity/off-curve/out-of-range/wrong length/format; X25519 low-order points and aliases, wrong length; ML-KEM hybrid wrong length/out-of-range coefficients/low-order share); DH-GEX requests (min,n,max) from boundary values and random uint32 against the choose_dh rule. Non-trivial = handshake ran (and, for attacks, the modification was applied); distinct = distinct hash of (schedule, events)",
+		Real: sshReal, Stub: kexStub,
+		Assumptions: []string{"the client pins the host key (FixedHostKey)", "byte-level changes that re-encode the same value are not attacks on the transcript binding and are not generated", "MODP primes for the fixed groups are computed from the RFC 2409/3526 formula"},
+	}
+	specs["C30"] = &spec{
+		Harness: "kex", Level: "fault_enumeration", QuickRuns: 3000, ThoroughRuns: 80000, Chunk: 150, EnumQuick: true, EnumThorough: true,
+		Rule: "enumerated part: for 5 configurations (curve25519/Ed25519, ECDH P-256/ECDSA, ML-KEM hybrid/Ed25519, DH-GEX/Ed25519, DH group14/RSA) every single insertion (IGNORE, DEBUG, UNIMPLEMENTED, unknown type), duplication, deletion and adjacent swap at every plaintext packet position of either direction, each under 2 schedules, with strict KEX on: neither constructor may succeed. Sampled part: random configurations with single and double faults; clean strict handshakes with 1-3 re-keys where the wire monitor verifies every packet under sequence numbers restarting at 0 after each NEWKEYS; non-strict connections (both peers omit the marker) with endpoint-generated IGNORE/DEBUG noise before KEXINIT, inside exchanges, after NEWKEYS and during re-keys: handshake and traffic must be unaffected. Non-trivial = the fault was applied / the handshake ran",
+		Real: sshReal, Stub: kexStub,
+		Assumptions: []string{"a stalled handshake is resolved by the attacker cutting the link, which still counts as 'does not succeed'", "mixed mode (one legacy peer) is not emulated: the KEXINIT hook cannot make this package ignore the peer's marker"},
 	}
 }
